@@ -174,3 +174,14 @@ func verifHeapRemove(i int) *tssItem { return heap.Remove(&tssQ, i).(*tssItem) }
 //@   loop 0 iterensures silent: !wellFormedHeader(lastpkt()) ==> calls("UDPConn.WriteToUDPAddrPort") == prev(calls("UDPConn.WriteToUDPAddrPort"))
 //@   loop 0 iterensures answered: lastreadok() && wellFormedHeader(lastpkt()) ==> mathint(calls("UDPConn.WriteToUDPAddrPort")) == mathint(prev(calls("UDPConn.WriteToUDPAddrPort")))+1
 //@   loop 0 iterensures reply: calls("UDPConn.WriteToUDPAddrPort") != prev(calls("UDPConn.WriteToUDPAddrPort")) ==> len(lastsent()) == 48 && lastsent()[0]&7 == 4 && (lastsent()[0]>>3)&7 == 4 && lastsent()[1] == 1
+
+// ---- the SCION listener: the project's own code in the receive loop, for every packet the parser may deliver ----
+// gopacket's parser fills the layer values with arbitrary (valid) contents; third-party serialisation, MAC and key
+// derivation calls are opaque and assumed not to fail on the packet just decoded (noerror clause, an assumption).
+// Scope: NTP payloads of at most 48 bytes (no NTS), as for the IP listener.
+//@ func runSCIONServer
+//@   noreturn
+//@   noframe
+//@   requires conn != nil && log != nil && mtrcs != nil
+//@   noerror buffer.Clear, payload.SerializeTo, scmpLayer.SerializeTo, scionLayer.SerializeTo, udpLayer.SerializeTo, e2eLayer.SerializeTo, e2eExtn.SerializeTo, spao.ComputeAuthCMAC, scion.DeriveHostHostKey
+//@   callsite ntp.DecodePacket 0 scope len(udpLayer.Payload) <= 48
